@@ -89,6 +89,27 @@ CHECKS = {
         note="faults are injected at the data-append / index-append step through the tag-guarded VerifWrapWriters hook",
         technique="TLA+ spec + TLC exhaustive check; TLC-generated sequences replayed with fault injection; trace validation by TLC",
     ),
+    "C04": dict(
+        category="model_checking",
+        text=("RecordIO.tla: the file is the sequence of records surviving the writer program (Write/WriteSync/Seek/Close); offsets, size, skip = "
+              "read+discard and SeekNext semantics are model-checked over all writer programs; every TLC-enumerated program (and simulated deeper "
+              "ones) runs on the real writer under seeded compression types, buffer sizes and payload families (sizes around buffers and the "
+              "4 KiB window, marker bytes, nil vs empty) and is read back sequentially, with read/skip programs, by offset and by SeekNext from "
+              "every byte offset; long files, MiB payloads, direct-I/O writer; TLC judges every reply."),
+        design_ref="§5 C04",
+        note="payloads embedding a complete valid record are excluded (precondition of any marker-scanning SeekNext)",
+        technique="TLA+ spec + TLC exhaustive check; TLC-generated writer programs replayed x concretizations; trace validation by TLC",
+    ),
+    "C12": dict(
+        category="fault_enumeration",
+        text=("For files generated from TLC-enumerated writer programs: every truncation length, every record-header byte x all 255 other "
+              "values (reduced set on longer files) and out-of-range file-header fields; each damaged copy is read by the sequential reader to "
+              "the end and by the random-access reader at every original offset; TLC judges against RecordIO.tla's CompleteToks / header-damage "
+              "clauses (only completely contained records, in order; a damaged header never yields data)."),
+        design_ref="§5 C12",
+        note="single-byte alterations only; a damaged header of the last record running into EOF may read as EOF (indistinguishable from a cut)",
+        technique="fault enumeration over spec-generated files, outcomes judged by TLC against the TLA+ spec",
+    ),
     "C05": dict(
         category="model_checking",
         text=("SimpleDB.tla with 2 clients, two-step Get, database lock, unbuffered hand-off, flusher and compactor is model-checked over all "
